@@ -207,6 +207,30 @@ def make_chain(rng):
             #  incompatible change once another step of type `T?` was changed in the same protocol; a verdict matter, C06)
             d.steps.append(("evo7", M.Opt(M.Prim(rng.choice(["int16", "int8"]))), False))
             d.steps.append(("evo10", M.Vec(M.Opt(M.Prim(rng.choice(["int32", "uint16", "float32"])))), False))
+    # named types whose definition gets wider between versions (`EvoId: float` -> `EvoId: double`), used as a value, as the
+    # element of a vector, as stream item and as record field: the name stays, its meaning per version differs
+    wal = ()
+    ra = rng.fork("evoalias")
+    if ra.chance(0.6):
+        fn0 = sorted(base.files)[0]
+        base.files[fn0].append(M.Alias("EvoId", (), M.Prim(ra.choice(["float32", "float32", "int16", "uint8", "int32"]))))
+        base.files[fn0].append(M.Alias("EvoIds", (), M.Vec(M.Prim(ra.choice(["float32", "int16", "uint8"])))))
+        base.files[fn0].append(M.Alias("EvoMaybe", (), M.Opt(M.Prim(ra.choice(["float32", "int16", "uint8"])))))
+        wal = ("EvoId", "EvoIds", "EvoMaybe")
+        for d in base.defs():
+            if isinstance(d, M.Protocol):
+                d.steps.append(("evo11", M.Named("EvoId"), False))
+                d.steps.append(("evo12", M.Vec(M.Named("EvoId")), False))
+                d.steps.append(("evo13", M.Named("EvoId"), True))
+                # (not as array element or map value: yardl reports an array / a map of a named type whose definition changed as an
+                #  incompatible change of the step - a verdict matter, C06)
+                d.steps.append(("evo14", M.Vec(M.Named("EvoId"), 3), ra.chance(0.5)))
+                d.steps.append(("evo18", M.Vec(M.Vec(M.Named("EvoId"), 2)), False))
+                d.steps.append(("evo16", M.Named("EvoIds"), ra.chance(0.5)))
+                d.steps.append(("evo17", M.Named("EvoMaybe"), ra.chance(0.5)))
+        for r in recs:
+            if ra.chance(0.4):
+                r.fields.append(("evoid%d" % ra.randint(1, 99), ra.choice([M.Named("EvoId"), M.Vec(M.Named("EvoId")), M.Named("EvoIds")])))
     must = ()
     if len(recs) >= 2 and rng.chance(0.6):
         # one generic record instantiated with two different records that the edits below may change: the
@@ -236,7 +260,7 @@ def make_chain(rng):
     k = rng.fork("chainshape")
     newest = E.with_versions(base, rng.fork("ver"), k.choice([1, 2, 2, 3]), partial=True, must_edit=must,
                              order=k.choice(["oldest_first", "oldest_first", "newest_first", "shuffled"]), p_new_protocol=k.choice([0.0, 0.4]),
-                             widen_steps=("evo3", "evo4", "evo6", "evo7", "evo10"))
+                             widen_steps=("evo3", "evo4", "evo6", "evo7", "evo10"), widen_aliases=wal)
     return newest
 
 
@@ -365,6 +389,8 @@ def model_task(task, ybin, root):
         stats["chains"] = 1
         stats["versions"] = len(old_models)
         edits = [e for l in getattr(newest, "edit_log", []) for e in l]
+        if any(e.startswith("widen_alias") for e in edits):
+            stats["chains_with_a_named_type_whose_definition_widened"] = 1
         if newest.find("EvoBox") is not None:
             stats["chains_with_generic_of_two_records"] = 1
             if any("EvoInner" in e for e in edits):
@@ -408,7 +434,7 @@ def main():
                stubbed="C++ nd-array header and date/date.h; harness main emitted from the generated protocols.h",
                assumptions=["where the reference conversion says a runtime error is allowed (overflow, inexact narrowing, removed union case) neither an error nor a value is judged",
                             "conversions the documentation leaves open (number <-> string, float -> int rounding) are never generated"],
-               replay_fn=replay_doc, quick_budget=160, fault_keys=("old_to_new", "new_to_old", "old_new_old", "reference_says_runtime_error_allowed", "reference_says_numeric_overflow"))
+               replay_fn=replay_doc, quick_budget=160, fault_keys=("old_to_new", "new_to_old", "old_new_old", "reference_says_runtime_error_allowed", "reference_says_numeric_overflow", "chains_with_a_named_type_whose_definition_widened"))
 
 
 if __name__ == "__main__":
